@@ -42,8 +42,14 @@ def run_worker(spec, tag):
     os.makedirs(d, exist_ok=True)
     path = os.path.join(d, f'c11_{tag}.json')
     json.dump(spec, open(path, 'w'))
-    env = dict(os.environ, PYTHONPATH='/repo', PYTHONHASHSEED='0', PYTHONWARNINGS='ignore', NUMBA_CACHE_DIR=os.path.join(C.BUILD, 'numba'))
-    r = subprocess.run(['/venv/bin/python', os.path.join(C.VERIF, 'harness', 'c11_worker.py'), path], stdout=subprocess.PIPE, stderr=subprocess.PIPE, text=True, env=env, timeout=1200)
+    # a private numba cache per worker: concurrent writers corrupt a shared one
+    cache = os.path.join(C.BUILD, f'numba_c11_{tag}')
+    env = dict(os.environ, PYTHONPATH='/repo', PYTHONHASHSEED='0', PYTHONWARNINGS='ignore', NUMBA_CACHE_DIR=cache)
+    try:
+        r = subprocess.run(['/venv/bin/python', os.path.join(C.VERIF, 'harness', 'c11_worker.py'), path], stdout=subprocess.PIPE, stderr=subprocess.PIPE, text=True, env=env, timeout=1200)
+    finally:
+        import shutil
+        shutil.rmtree(cache, ignore_errors=True)
     for line in r.stdout.splitlines():
         if line.startswith('C11RESULT '):
             return json.loads(line[len('C11RESULT '):]), None
